@@ -21,7 +21,7 @@ func TestVerifC02(t *testing.T) {
 	if r.Thorough() {
 		maxCuts = 3
 	}
-	r.SetBound(fmt.Sprintf("all block partitions with <=%d cuts + all uniform block sizes, stream length 4*nsamp+14, (npre,nsamp) in {(3,5),(4,14)}, signed/unsigned, 9 edge/level/auto configurations, 5 control histories (restored, configured before, configured after block 1, ConfigurePulseLengths same/different), single/double pulses", maxCuts))
+	r.SetBound(fmt.Sprintf("all block partitions with <=%d cuts + all uniform block sizes, stream length 4*nsamp+14, (npre,nsamp) in {(3,5),(4,14)}, signed/unsigned, 10 edge/level/auto configurations, 5 control histories (restored, configured before, configured after block 1, ConfigurePulseLengths same/different), single/double pulses; for the rising-level configurations also one or two fast pulses followed by a slow level-only pulse at every offset", maxCuts))
 	vTrigCases(r, false, func(id string, sc *vTrigScenario) {
 		built := false
 		r.DFS(id, -1, func(x *vexp.X) vexp.Result {
@@ -31,7 +31,7 @@ func TestVerifC02(t *testing.T) {
 				built = true
 			}
 			cuts := maxCuts
-			if sc.L > 40 && len(sc.pulses) > 1 && cuts > 2 {
+			if sc.L > 40 && len(sc.pulses)+len(sc.slow) > 1 && cuts > 2 {
 				cuts = 2
 			}
 			bounds := vChoosePartition(x, sc.L, cuts, true)
